@@ -362,7 +362,7 @@ func run(c *vf.Ctx) {
 	}
 
 	// ---- gated schedules
-	reps := c.Pick(1, 3)
+	reps := c.Pick(1, 8)
 	list := gatedList(c.Rand("gated"), c.Quick())
 	const chunk = 40
 	for rep := 0; rep < reps; rep++ {
@@ -387,7 +387,7 @@ func run(c *vf.Ctx) {
 		}
 	}
 	// ---- group scenarios
-	nGroup := c.Pick(300, 6000)
+	nGroup := c.Pick(400, 20000)
 	for lo := 0; lo < nGroup; lo += 100 {
 		lo := lo
 		spawn(func() {
@@ -431,8 +431,8 @@ func run(c *vf.Ctx) {
 			})
 		}
 	}
-	stress(c.Pick(600, 18000), c.Pick(100, 600), false)
-	stress(c.Pick(200, 4000), c.Pick(50, 250), true)
+	stress(c.Pick(1500, 80000), c.Pick(125, 200), false)
+	stress(c.Pick(400, 12000), c.Pick(50, 100), true)
 	wg.Wait()
 
 	// ---- confirmation of hang-type gated verdicts by the Go runtime's dead-lock detector
@@ -486,14 +486,14 @@ func run(c *vf.Ctx) {
 	}
 	wg.Wait()
 
-	c.Require("evaluations", c.Pick(1000, 20000))
-	c.Require("gated_windows_entered", c.Pick(250, 2000))
+	c.Require("evaluations", c.Pick(2000, 100000))
+	c.Require("gated_windows_entered", c.Pick(250, 10000))
 	c.Require("window:"+ptAfterCheck, 50)
 	c.Require("window:"+ptBeforePush, 50)
 	c.Require("window:"+ptBeforeWait, 50)
 	c.Require("group_wait_parked_observations", 500)
-	c.Require("stress_runs_submit_overlapping_shutdown", c.Pick(100, 2000))
-	c.Require("stress_runs_race_build", c.Pick(150, 3000))
+	c.Require("stress_runs_submit_overlapping_shutdown", c.Pick(300, 15000))
+	c.Require("stress_runs_race_build", c.Pick(300, 9000))
 	c.Assume("a consistent runtime.Stack(all) snapshot in which every goroutine is parked on a sync primitive or channel (twice in a row, timer-free scenario) means no goroutine can ever run again")
 	c.Assume("the verif yield points are no-ops apart from blocking/yielding the calling goroutine")
 }
